@@ -20,6 +20,8 @@ def op (name : String) (j : Json) : Except String (Option Json) := do
     let r ← rawArgs j
     if r.pairs then pure (some (exceptJ resPairsJ (Model.contactResiduePairs r.atoms (args r))))
     else pure (some (exceptJ resChainsJ (Model.contactResidueSets r.atoms (args r))))
+  | "contact_defaults" =>
+    pure (some (Json.mkObj [("atoms", ratJ Gen.contact_cutoff_default), ("residues", ratJ Gen.contact_residues_cutoff_default)]))
   | "backbone_names" =>
     pure (some (Json.arr (Model.backbone.map strJ).toArray))
   | _ => pure none
